@@ -19,6 +19,7 @@ func checkC11(p *Prog, r *Report) {
 	checkSetPermsPaths(p, r)
 	checkOptionGuards(p, r)
 	checkModTimeEqual(p, r, "C11/SECOND-GRANULARITY")
+	checkKeepPerms(p, r)
 	checkTypeTables(p, r)
 	checkFieldBindings(p, r)
 	checkTouchUp(p, r)
@@ -422,6 +423,67 @@ func changePhiOK(cond ssa.Value, optF *types.Var, isAmRoot func(ssa.Value) bool,
 	return nTrue == 1
 }
 
+// checkKeepPerms: without -p an existing destination file that is not
+// transferred keeps its own permission bits.
+func checkKeepPerms(p *Prog, r *Report) {
+	rule := "C11/KEEP-PERMS"
+	r.Rule(rule, "on the up-to-date (skip) path of recvGenerator the mode handed to setPerms is the list's mode only on the edge PreservePerms==true; otherwise it carries the existing file's permission bits (st.Mode().Perm())", 1)
+	gen := anchorFunc(p, r, pkgReceiver, "Transfer", "recvGenerator")
+	skip := anchorFunc(p, r, pkgReceiver, "Transfer", "skipFile")
+	setPerms := anchorFunc(p, r, pkgReceiver, "Transfer", "setPerms")
+	pp := p.Field(pkgReceiver, "TransferOpts", "PreservePerms")
+	modeF := p.Field(pkgReceiver, "File", "Mode")
+	if gen == nil || skip == nil || setPerms == nil || pp == nil || modeF == nil {
+		return
+	}
+	isSkipTrue := func(v ssa.Value) bool {
+		c, idx := extractOf(v)
+		return c != nil && idx == 0 && c.Common().StaticCallee() == skip
+	}
+	isListMode := func(v ssa.Value) bool { return isFieldLoad(stripConv(v), modeF) }
+	n := 0
+	allCalls(gen, func(c ssa.CallInstruction) {
+		if c.Common().StaticCallee() != setPerms || !HasFact(c, true, isSkipTrue) {
+			return
+		}
+		n++
+		arg := c.Common().Args[2]
+		ok := true
+		why := ""
+		if phi, isPhi := arg.(*ssa.Phi); isPhi {
+			for i, e := range phi.Edges {
+				if !isListMode(e) {
+					continue
+				}
+				good := false
+				for _, f := range FactsAtBlock(phi.Block().Preds[i]) {
+					if f.Val && isFieldLoad(f.Cond, pp) {
+						good = true
+					}
+				}
+				// the edge straight from the `if !PreservePerms` test: the phi's block is the false successor
+				if !good {
+					if ifi, isIf := lastInstr(phi.Block().Preds[i]).(*ssa.If); isIf {
+						nf := normFact(Fact{Cond: ifi.Cond, Val: phi.Block().Preds[i].Succs[0] == phi.Block()})
+						if isFieldLoad(nf.Cond, pp) && nf.Val {
+							good = true
+						}
+					}
+				}
+				if !good {
+					ok, why = false, "the sender's permission bits reach setPerms on the skip path without PreservePerms"
+				}
+			}
+		} else if isListMode(arg) && !HasFact(c, true, isFieldLoadPred(pp)) {
+			ok, why = false, "the up-to-date file is given the sender's permission bits regardless of -p: without -p an existing file must keep its own permissions"
+		}
+		r.Cond(ok, rule, "recvGenerator skip path → setPerms(mode)", p.Pos(instrPos(c)), why)
+	})
+	if n == 0 {
+		r.Bad(rule, "recvGenerator skip path → setPerms(mode)", p.Pos(gen.Pos()), "no setPerms on the skip path")
+	}
+}
+
 func checkTypeTables(p *Prog, r *Report) {
 	rule := "C11/TYPE-TABLES"
 	r.Rule(rule, "per file type the sender ORs exactly the matching S_IF* constant into the wire mode (walkFn), the receiver's (*File).FileMode maps S_IF* back to the matching Go mode bit, and createDevice dispatches each special type to the matching system call with the matching S_IF* constant", 7)
@@ -592,7 +654,10 @@ func checkFieldBindings(p *Prog, r *Report) {
 			switch calleeName(call) {
 			case "(time.Time).Unix":
 				if mc, ok := call.Common().Args[0].(*ssa.Call); ok && mc.Common().IsInvoke() && mc.Common().Method.Name() == "ModTime" {
-					wrote["mtime"] = true
+					// exactly int32(t.Unix()): one truncating conversion, no unsigned detour
+					if cv, isCv := c.Common().Args[1].(*ssa.Convert); isCv && cv.X == ssa.Value(call) {
+						wrote["mtime"] = true
+					}
 				}
 			}
 		}
@@ -632,8 +697,12 @@ func checkFieldBindings(p *Prog, r *Report) {
 			}
 			if call, isC := st.Val.(*ssa.Call); isC && calleeName(call) == "time.Unix" {
 				if k, isK := constInt(call.Common().Args[1]); isK && k == 0 {
-					if rc, idx := extractOf(stripConv(call.Common().Args[0])); rc != nil && idx == 0 && strings.HasSuffix(calleeName(rc), ".Conn).ReadInt32") {
-						okMT = true
+					// exactly int64(<int32 read from the wire>): a sign-extending widening,
+					// no detour through an unsigned type (pre-1970 times are negative)
+					if cv, isCv := call.Common().Args[0].(*ssa.Convert); isCv {
+						if rc, idx := extractOf(cv.X); rc != nil && idx == 0 && strings.HasSuffix(calleeName(rc), ".Conn).ReadInt32") {
+							okMT = true
+						}
 					}
 				}
 			}
